@@ -485,6 +485,21 @@ def r14_entry_points_leave_the_verdict_to_the_dispatcher(ctx):
     R.floor("C13.R14", n, 1, "constructions of MethodNotFound / InvalidParams in the registry module")
 
 
+def r15_alias_reports_success_only_after_binding(ctx):
+    """`register_alias` answers Ok only when it has bound the alias: every path to an `Ok` return passes the insert into
+    the method table. A shortcut that answers Ok first (`alias == existing_method: nothing to do`) skips both checks - the
+    name may be taken (must fail) or the target unbound (must fail) - and adds nothing."""
+    F, R = ctx.F, ctx.R
+    al = F.one(r"^jsonrpsee_core::server::rpc_module::RpcModule::<Context>::register_alias$")
+    R.fn(al)
+    ins = {c.bb for c in al.calls_to(r"HashMap::<.*>::insert$")}
+    oks = {bi for bi, blk in enumerate(al.blocks) if bi in al.reachable for st in blk["st"] if st["s"] == "assign" and st["pl"]["l"] == 0 and not st["pl"].get("p") and st["rv"]["k"] == "agg" and st["rv"].get("variant") == "Ok"}
+    R.floor("C13.R15", len(ins), 1, "insertions in register_alias")
+    free = (al.reach_from(0, avoid=ins) | {0}) - ins
+    bad = sorted(free & oks)
+    R.check(bool(oks) and not bad, "C13.R15", "alias:ok-only-after-insert", "register_alias returns Ok only after the insert", "register_alias can return Ok without having bound the alias (an Ok return is reachable without the insert): a taken name, or an alias of an unbound method, is reported as success", "%s:%d" % (al.file, block_line(al, bad[0]) if bad else al.lo))
+
+
 def r9_no_silent_table_writes(ctx):
     """every write into the method table either cannot replace/keep silently (VacantEntry::insert behind an Occupied =>
     AlreadyRegistered arm) or is an insert after a successful verify (R1). The entry API's keep-or-overwrite operations
@@ -510,7 +525,7 @@ def rgen_generated_registrations(ctx):
     return c17.w_rules(ctx)
 
 
-LIB_RULES = [r14_entry_points_leave_the_verdict_to_the_dispatcher, r1_insert_after_verify, r2_all_or_nothing, r3_copy_on_write, r4_dispatch_and_remove, r5_not_found_iff_unbound, r6_sibling_registrars, r7_names_spelled_alike, r8_insert_fails_only_as_prechecked, r9_no_silent_table_writes, r10_lookup_is_one_exact_map_access, r11_taken_means_is_a_key, r12_no_borrowed_names, r13_merge_succeeds_only_after_checking_every_name]
+LIB_RULES = [r15_alias_reports_success_only_after_binding, r14_entry_points_leave_the_verdict_to_the_dispatcher, r1_insert_after_verify, r2_all_or_nothing, r3_copy_on_write, r4_dispatch_and_remove, r5_not_found_iff_unbound, r6_sibling_registrars, r7_names_spelled_alike, r8_insert_fails_only_as_prechecked, r9_no_silent_table_writes, r10_lookup_is_one_exact_map_access, r11_taken_means_is_a_key, r12_no_borrowed_names, r13_merge_succeeds_only_after_checking_every_name]
 CONFIGS_QUICK = ["libs-all", "corpus"]
 CONFIGS_THOROUGH = ["libs-all", "facade-full", "corpus"]
 
